@@ -1,14 +1,80 @@
-//! Input predicates naming the classes of known (open) findings. Each is a pure function of the input.
+//! Input predicates naming the classes of known (open) findings. Each is a pure function of the input
+//! (and, where stated, of the explorer's context such as the variant compared) — never of the outcome.
+use cgt_core::{Operation, Transaction};
+use mcx::rat::Rat;
 use mcx::run::{Input, Predicate};
+use rust_decimal::Decimal;
 use serde_json::Value;
 use std::collections::BTreeMap;
 
 pub fn all() -> BTreeMap<String, Predicate> {
     let mut m: BTreeMap<String, Predicate> = BTreeMap::new();
     m.insert("never".into(), never as Predicate);
+    m.insert("residue_prone_split_ratio".into(), residue_prone_split_ratio as Predicate);
     m
 }
 
 fn never(_i: &Input, _c: &Value) -> bool {
     false
+}
+
+/// 1/ratio (or ratio itself) has no finite decimal expansion: numerator or denominator of the ratio in lowest
+/// terms has a prime factor other than 2 and 5.
+pub fn nonterminating(ratio: Decimal) -> bool {
+    if ratio.is_zero() {
+        return false;
+    }
+    let only_2_5 = |mut m: i128| {
+        if m == 0 {
+            return true;
+        }
+        m = m.abs();
+        while m % 2 == 0 {
+            m /= 2;
+        }
+        while m % 5 == 0 {
+            m /= 5;
+        }
+        m == 1
+    };
+    // ratio = mantissa / 10^scale ; reciprocal terminates iff mantissa (in lowest terms vs 10^scale) is 2^a5^b
+    let n = ratio.normalize();
+    !only_2_5(n.mantissa())
+}
+
+/// The ledger contains a SPLIT/UNSPLIT whose reciprocal is not a finite decimal and that either
+/// (a) is an UNSPLIT followed by a later SELL of the security, or
+/// (b) lies between a SELL and a BUY of the security dated within the following 30 days.
+/// In both positions rust_decimal's 28-digit quotient leaves a 1e-27 residue in a share count.
+fn residue_prone_split_ratio(i: &Input, _c: &Value) -> bool {
+    let Input::Ledger(txs) = i else { return false };
+    ledger_residue_prone(txs)
+}
+
+pub fn ledger_residue_prone(txs: &[Transaction]) -> bool {
+    for e in txs {
+        let (ratio, is_unsplit) = match &e.operation {
+            Operation::Split { ratio } => (*ratio, false),
+            Operation::Unsplit { ratio } => (*ratio, true),
+            _ => continue,
+        };
+        if !nonterminating(ratio) {
+            continue;
+        }
+        let sell_after = txs.iter().any(|t| t.ticker == e.ticker && t.date > e.date && matches!(t.operation, Operation::Sell { .. }));
+        if is_unsplit && sell_after {
+            return true;
+        }
+        for s in txs.iter().filter(|t| t.ticker == e.ticker && matches!(t.operation, Operation::Sell { .. }) && t.date <= e.date) {
+            if txs.iter().any(|b| b.ticker == e.ticker && matches!(b.operation, Operation::Buy { .. }) && b.date > e.date && (b.date - s.date).num_days() <= 30) {
+                return true;
+            }
+        }
+    }
+    false
+}
+
+#[allow(dead_code)]
+pub fn rat_of(d: Decimal) -> Rat {
+    Rat::from_dec(d)
 }
